@@ -14,7 +14,7 @@ import (
 // compute their expectations from it; the library objects are built from it
 // through the public constructors or by parsing its JSON text.
 type Node struct {
-	Kind     string // Point SimplePoint LineString Polygon Rect MultiPoint MultiLineString MultiPolygon GeometryCollection Feature FeatureCollection Circle
+	Kind     string             // Point SimplePoint LineString Polygon Rect MultiPoint MultiLineString MultiPolygon GeometryCollection Feature FeatureCollection Circle
 	Rings    [][]geometry.Point // Point/SimplePoint: [[p]]; LineString: [pts]; Polygon: rings; Rect: [[min,max]]
 	Children []*Node
 	Members  string  // Feature members (constructor path)
@@ -22,9 +22,11 @@ type Node struct {
 	Steps    int     // Circle
 }
 
-func nPoint(p geometry.Point) *Node       { return &Node{Kind: "Point", Rings: [][]geometry.Point{{p}}} }
-func nSimplePoint(p geometry.Point) *Node { return &Node{Kind: "SimplePoint", Rings: [][]geometry.Point{{p}}} }
-func nLine(p []geometry.Point) *Node      { return &Node{Kind: "LineString", Rings: [][]geometry.Point{p}} }
+func nPoint(p geometry.Point) *Node { return &Node{Kind: "Point", Rings: [][]geometry.Point{{p}}} }
+func nSimplePoint(p geometry.Point) *Node {
+	return &Node{Kind: "SimplePoint", Rings: [][]geometry.Point{{p}}}
+}
+func nLine(p []geometry.Point) *Node { return &Node{Kind: "LineString", Rings: [][]geometry.Point{p}} }
 func nPoly(rings ...[]geometry.Point) *Node {
 	return &Node{Kind: "Polygon", Rings: rings}
 }
